@@ -11,6 +11,7 @@ import (
 	"regexp"
 	"strconv"
 	"strings"
+	"unicode/utf8"
 
 	"gonum.org/v1/gonum/graph"
 	"gonum.org/v1/gonum/graph/encoding"
@@ -671,8 +672,9 @@ func isID(s string) bool {
 	}
 	// 3. double-quote string ID.
 	if len(s) >= 2 && strings.HasPrefix(s, `"`) && strings.HasSuffix(s, `"`) {
-		// Check that escape sequences within the double-quotes are valid.
-		if _, err := strconv.Unquote(s); err == nil {
+		// Check that escape sequences within the double-quotes are valid
+		// and that the string can be a single token of the DOT lexer.
+		if _, err := strconv.Unquote(s); err == nil && isLexable(s) {
 			return true
 		}
 	}
@@ -680,8 +682,35 @@ func isID(s string) bool {
 	return isHTMLID(s)
 }
 
-// isHTMLID reports whether the given string an HTML ID.
+// isHTMLID reports whether the given string is an HTML ID as accepted by the
+// DOT parser: a string delimited by angle brackets in which nested angle
+// brackets are balanced, with at most one level of nesting (HTML tags).
 func isHTMLID(s string) bool {
-	// HTML IDs have the format /^<.*>$/
-	return len(s) >= 2 && strings.HasPrefix(s, "<") && strings.HasSuffix(s, ">")
+	// HTML IDs have the format /^<([^<>]|<[^<>]*>)*>$/
+	if len(s) < 2 || !strings.HasPrefix(s, "<") || !strings.HasSuffix(s, ">") || !isLexable(s) {
+		return false
+	}
+	inTag := false
+	for _, c := range s[1 : len(s)-1] {
+		switch c {
+		case '<':
+			if inTag {
+				return false
+			}
+			inTag = true
+		case '>':
+			if !inTag {
+				return false
+			}
+			inTag = false
+		}
+	}
+	return !inTag
+}
+
+// isLexable reports whether s holds only characters that the DOT lexer
+// accepts within a quoted string or an HTML string: valid UTF-8 without
+// NUL and U+FFFD.
+func isLexable(s string) bool {
+	return utf8.ValidString(s) && !strings.ContainsRune(s, 0) && !strings.ContainsRune(s, utf8.RuneError)
 }
